@@ -2,6 +2,7 @@ package c08
 
 import (
 	"context"
+	"errors"
 	"fmt"
 	"strconv"
 	"strings"
@@ -45,6 +46,10 @@ type shape struct {
 	Kind      string `json:"kind"`
 	OwnOPT    int    `json:"own_opt"`
 	Propagate bool   `json:"propagate_write_error"`
+	// NoWrite: "" the handler writes; "nil" it returns nil without writing
+	// (what a rate limiter or an access check does when it drops a query);
+	// "error" it returns an error without writing.
+	NoWrite string `json:"handler_writes_nothing,omitempty"`
 }
 
 var (
@@ -54,7 +59,12 @@ var (
 
 func (s shape) qname() string {
 	e := 0
-	if s.Propagate {
+	switch {
+	case s.NoWrite == "nil":
+		e = 2
+	case s.NoWrite == "error":
+		e = 3
+	case s.Propagate:
 		e = 1
 	}
 
@@ -90,6 +100,12 @@ func parseShape(qname string) (s shape, err error) {
 		return s, err
 	}
 	s.Propagate = e == 1
+	switch e {
+	case 2:
+		s.NoWrite = "nil"
+	case 3:
+		s.NoWrite = "error"
+	}
 
 	return s, nil
 }
@@ -228,6 +244,16 @@ func buildResp(req *dns.Msg) (m *dns.Msg, sh shape, size int, err error) {
 		return m, sh, size, err
 	}
 
+	if sh.NoWrite != "" {
+		// Nothing is handed to the server; the model keeps the empty reply for
+		// the size classes only.
+		m = &dns.Msg{}
+		m.SetReply(req)
+		size, err = packedLen(m)
+
+		return m, sh, size, err
+	}
+
 	m = &dns.Msg{}
 	m.SetReply(req)
 	m.RecursionAvailable = true
@@ -314,10 +340,13 @@ func packedLen(m *dns.Msg) (n int, err error) {
 	return len(b), nil
 }
 
+var errNoWrite = errors.New("c08: scripted handler failure without a response")
+
 // hRecord is what H8 observed for one invocation.
 type hRecord struct {
 	Server   string `json:"server"`
 	WriteErr string `json:"write_err,omitempty"`
+	NoWrite  string `json:"handler_wrote_nothing,omitempty"`
 	Size     int    `json:"handler_size"`
 	// UpstreamCalls is, in the ecs-cache phase, how many times the scripted
 	// upstream was called for this request (0: served from cache).
@@ -389,6 +418,17 @@ func (h *h8) ServeDNS(ctx context.Context, rw dnsserver.ResponseWriter, req *dns
 	rec := hRecord{Size: size}
 	if si, ok := dnsserver.ServerInfoFromContext(ctx); ok {
 		rec.Server = si.Name
+	}
+
+	if sh.NoWrite != "" {
+		// The server is on its own.
+		rec.NoWrite = sh.NoWrite
+		h.report(sh.Cell, rec)
+		if sh.NoWrite == "error" {
+			return errNoWrite
+		}
+
+		return nil
 	}
 
 	if isStoredKind(sh.Kind) {
